@@ -136,6 +136,19 @@ class Lowerer:
             self.te.typedefs[a] = b
         for o in objs:
             self.collect(o, [])
+        # records treated as external (only their name is used; constructors etc. are models in /verif/specs)
+        ext = cfg.get('external_records', [])
+        if ext:
+            for rid, r in list(self.records.items()):
+                if any(re.search(p, r.qual) for p in ext):
+                    del self.records[rid]
+                    self.rec_by_qual.pop(r.qual, None)
+                    for fid, f in list(self.funcs.items()):
+                        if f.cls is r:
+                            del self.funcs[fid]
+                    for fid, (rr, nm) in list(self.fields.items()):
+                        if rr is r:
+                            del self.fields[fid]
         self.name_funcs()
 
     # ------------------------------------------------------------------ collection
